@@ -3,7 +3,7 @@ import re
 from packaging.utils import (parse_wheel_filename, parse_sdist_filename, InvalidWheelFilename, InvalidSdistFilename)
 from packaging.tags import Tag, parse_tag
 from packaging.version import Version, InvalidVersion
-from names_impl import fold
+from names_impl import fold, sig, gen_table
 
 def b(x): return "T" if x else "F"
 
@@ -40,6 +40,8 @@ def observe(cmd, args):
     if cmd == "law.f.sdist": return law_sdist(*args)
     if cmd == "law.f.tags": return law_tags(args[0])
     if cmd == "law.f.reject": return law_reject(*args)
+    if cmd == "law.f.tables": return law_tables()
+    if cmd == "law.f.tagstr": return law_tagstr(*args)
     raise KeyError(cmd)
 
 
@@ -55,12 +57,13 @@ def law_wheel(name, version, build, pys, abis, plats, lower):
     fn = "-".join([escape(name, lower), version] + ([build] if build else []) + [pys, abis, plats]) + ".whl"
     try: gn, gv, gb, gt = parse_wheel_filename(fn)
     except InvalidWheelFilename: return "assembled name rejected: %r" % fn
-    if gn != fold(name): return "name %r is not the PEP 503 form of %r" % (gn, name)
+    if sig(name, gn) != sig(name, fold(name)): return "name %r is not the PEP 503 form of %r" % (gn, name)
     want = Version(version)
     if not (gv == want) or str(gv) != str(want) or hash(gv) != hash(want): return "version %r differs from %r" % (str(gv), version)
     if build:
         m = re.fullmatch(r"([0-9]+)([^0-9].*|)", build, re.S)
         if gb != (int(m.group(1)), m.group(2)): return "build %r from %r" % (gb, build)
+        if type(gb[0]) is not int or gb[0] < 0: return "build number %r" % (gb[0],)
     elif gb != (): return "build %r without a build tag" % (gb,)
     exp = {(i.lower(), a.lower(), p.lower()) for i in parts(pys) for a in parts(abis) for p in parts(plats)}
     got = [(t.interpreter, t.abi, t.platform) for t in gt]
@@ -72,7 +75,7 @@ def law_sdist(name, version, ext, lower):
     fn = escape(name, lower) + "-" + version + ext
     try: gn, gv = parse_sdist_filename(fn)
     except InvalidSdistFilename: return "assembled name rejected: %r" % fn
-    if gn != fold(name): return "name %r is not the PEP 503 form of %r" % (gn, name)
+    if sig(name, gn) != sig(name, fold(name)): return "name %r is not the PEP 503 form of %r" % (gn, name)
     want = Version(version)
     if not (gv == want) or str(gv) != str(want): return "version %r differs from %r" % (str(gv), version)
     return "ok"
@@ -82,10 +85,13 @@ def law_tags(s):
     except ValueError: return "ok"          # not a three-part tag: the statement is silent
     for t in ts:
         if parse_tag(str(t)) != frozenset({t}): return "parse_tag(str(t)) != {t} for %s" % t
-        for u in (Tag(t.interpreter.upper(), t.abi.upper(), t.platform.upper()), Tag(t.interpreter.swapcase(), t.abi, t.platform.title())):
+        cv = lambda f, x: f(x) if f(x).lower() == x.lower() else x      # a case variant: another spelling with the same str.lower() (not 'ß' -> 'SS')
+        for u in (Tag(cv(str.upper, t.interpreter), cv(str.upper, t.abi), cv(str.upper, t.platform)), Tag(cv(str.swapcase, t.interpreter), t.abi, cv(str.title, t.platform))):
             if not (u == t) or u != t or hash(u) != hash(t) or str(u) != str(t): return "Tag is case-sensitive on %s" % t
             if (u.interpreter, u.abi, u.platform) != (t.interpreter, t.abi, t.platform): return "fields not normalised on %s" % t
-    if parse_tag(s.upper()) != ts or parse_tag(s.lower()) != ts: return "parse_tag is case-sensitive on %r" % s
+    for v in (s.upper(), s.lower()):            # whole-string variants: U+03A3 is left out (its lower-casing depends on what follows the field)
+        if "\u03a3" in s: break
+        if len(v) == len(s) and all(a.lower() == b.lower() for a, b in zip(v, s)) and parse_tag(v) != ts: return "parse_tag is case-sensitive on %r" % s
     return "ok"
 
 def law_reject(kind, fn):
@@ -98,3 +104,34 @@ def law_reject(kind, fn):
     except (InvalidSdistFilename if kind.startswith("sdist") else InvalidWheelFilename):
         return "ok"
     return "%s accepted: %r" % (kind, fn)
+
+def law_tagstr(i, a, p):
+    """parse_tag(str(t)) is {t}, on a directly constructed tag; equal to the tag built from its own (already lower-cased) fields."""
+    t = Tag(i, a, p)
+    if Tag(t.interpreter, t.abi, t.platform) != t: return "Tag fields are not a fixed point of the lower-casing on %s" % t
+    if (t.interpreter, t.abi, t.platform) != (i.lower(), a.lower(), p.lower()): return "Tag fields are not the lower-cased arguments on %s" % t
+    got = parse_tag(str(t))
+    if got != frozenset({t}): return "parse_tag(str(t)) != {t} for %s: %d member(s)" % (t, len(got))
+    return "ok"
+
+def law_tables():
+    """The generated tables coq/Gen/WordTable.v against the running interpreter, for every code point: \\w under re.UNICODE, \\d, int()."""
+    words = gen_table("WordTable.v", "word_ranges", 2); digs = gen_table("WordTable.v", "digit_ranges", 3)
+    W = re.compile(r"\w", re.UNICODE); D = re.compile(r"\d")
+    wset = set(); dval = {}
+    for lo, hi in words: wset.update(range(lo, hi + 1))
+    for lo, hi, v in digs:
+        for cp in range(lo, hi + 1): dval[cp] = v + cp - lo
+    for cp in range(0x110000):
+        c = chr(cp); w = W.match(c) is not None; d = D.match(c) is not None
+        if cp < 128:
+            if w != (c.isascii() and (c.isalnum() or c == "_")): return "ASCII %r: \\w is %r" % (c, w)
+            if d != ("0" <= c <= "9"): return "ASCII %r: \\d is %r" % (c, d)
+            if cp in wset or cp in dval: return "ASCII %r in a non-ASCII table" % c
+            continue
+        if w != (cp in wset): return "U+%04X: \\w is %r, generated table says %r" % (cp, w, cp in wset)
+        if d != (cp in dval): return "U+%04X: \\d is %r, generated table says %r" % (cp, d, cp in dval)
+        if d and (int(c) != dval[cp] or not 0 <= dval[cp] <= 9): return "U+%04X: int() is %r, generated table says %r" % (cp, int(c), dval[cp])
+        if d and not w: return "U+%04X matches \\d but not \\w" % cp
+    if int("7\u0967") != 71 or int("\u0967\uff11") != 11: return "int() is not positional over mixed-script digits"
+    return "ok"
